@@ -383,4 +383,17 @@ def obligations(tier):
                 obs.append(QueryVal2idx(m, d, b))
     obs.append(QueryGetTimes(False))
     obs.append(QueryGetTimes(True))
+    # IOAPI windows must leave the source file's referencing attributes
+    # alone, also when they are held as arrays (checks/c11.py obligations
+    # with the source-unchanged claims switched on)
+    from . import c11
+    for dim in ('COL', 'ROW'):
+        for kind in ('int', 'slice'):
+            for attr in ('scalar', 'array'):
+                o = c11.Subset(dim, kind, R=3 if dim == 'ROW' else 2,
+                               C=3 if dim == 'COL' else 2, year=2004,
+                               attr=attr)
+                o.check_source = True
+                o.name = 'ioapi-' + o.name
+                obs.append(o)
     return obs
